@@ -796,3 +796,7 @@ for _n in range(1, 7):
     B("C06", _n)
 for _n in range(1, 7):
     B("C09", _n)
+for _n in range(1, 7):
+    B("C10", _n)
+for _n in range(1, 7):
+    B("C11", _n)
